@@ -94,6 +94,7 @@ class Report:
     assumptions: list = field(default_factory=list)
     exhaustive: bool = False
     self_tests: list = field(default_factory=list)
+    selftest_failures: list = field(default_factory=list)
 
     def sample(self, obj, cap=4):
         if len(self.samples) < cap:
@@ -227,6 +228,8 @@ def finish(rep: Report) -> int:
         wall_s=round(time.time() - rep.t0, 2), violations=len(rep.violations),
     )
     (EVID / f"{rep.prop}.json").write_text(json.dumps(ev, indent=1))
+    if rep.selftest_failures and not rep.violations:
+        raise MachineryError("; ".join(rep.selftest_failures))
     status = "VIOLATED" if rep.violations else "held"
     print(f"{rep.prop}: {status}; tlc states={rep.states} transitions={rep.transitions} "
           f"replayed/validated={rep.traces} P={rep.p_facts} D={rep.d_facts} M={rep.m_facts} "
